@@ -11,6 +11,7 @@ jsonschema.validate as called by BaseSpec.validate_schema):
           compared with Model/Schema.v `validate` on Gen/Schemas.v (dumped from the real classes).
   norm    Model/Norm.v norm_wf_list / norm_wb / norm_action_list  vs  spec.to_dict() of accepted documents
   slice   Model/Slice.v slice  vs  parser._parse_def_from_wb on rendered workbook texts
+  key_of  Model/Slice.v key_of / is_content  vs  parser._key_of / _is_content line by line
 
 Oracle (no model involved), per document:
   O1 the entry point returns a spec, or raises a DSLParsingException-family / 4xx Mistral error; any other
@@ -23,23 +24,22 @@ Oracle (no model involved), per document:
   O4 a sample goes through the real services (create_workflows / create_workbook_v2, sqlite) and back through
      parser.get_workflow_spec_by_definition_id before and after clear_caches().
 
-Self-test (scratch worktrees of /repo, `VERIF_REPO=/tmp/wt_C14_mN ./check C14`; each adds a VIOLATION with a
-signature that the unchanged tree does not produce):
-  M1 lang/base.py BaseSpecList.__init__: drop the `isinstance(v, dict)` guard before v['name'] = k
-       -> internal-error:TypeError@mistral/lang/base.py:__init__  (+ 11 corpus/walk disagreements)
-  M2 lang/v2/workflows.py WorkflowSpec.__init__: task.setdefault('type', ...) instead of task['type'] = ...
-       -> internal-error:AttributeError@mistral/lang/v2/workflows.py:__init__ / :get_task_requires (+ walk disagreements)
-  M3 lang/parser.py _parse_def_from_wb: `ident <= temp` instead of `ident < temp`
-       -> slice:other (oracle O3) + 85 slice-model disagreements
-  M4 lang/v2/on_clause.py TASK_WITH_EXPRESSION: remove "minProperties": 1
-       -> internal-error:IndexError@mistral/lang/v2/on_clause.py:_as_tuple; proof obligation C14_guards_on_clause broken
-  M5 lang/v2/retry_policy.py: "required": ["delay", "count"] -> ["count"]
-       -> internal-error:KeyError@mistral/lang/v2/retry_policy.py:__init__; proof obligation C14_guards_retry broken
-  M6 utils/safe_yaml.py: remove fetch_alias / fetch_anchor (aliases expand again)
-       -> hang-risk:alias-amplification (the corpus "billion laughs" document loads to 2M nodes from 400 characters)
+Self-test (scratch worktrees of /repo, `VERIF_REPO=/tmp/wt_C14_x ./check C14`; each gives VIOLATION lines, the
+current tree gives none):
+  R1 revert of fix 1e28c643 (slicer)              -> slice:other-line-equals-name / member-line-not-plain / section-name-occurs-earlier /
+                                                     raises:ValueError (oracle O3) + slice and key_of model disagreements
+  R2 revert of fix 31aaf4b7 (validation totality) -> the internal-error:* signatures listed below, accepted-unvalidated:wb-returns-None,
+                                                     stored-form:differs:nonstring-key, task-dropped:version + walk disagreements
+  (measured on the tree before the fixes, same detectors:)
+  M1 lang/base.py BaseSpecList.__init__: drop the `isinstance(v, dict)` guard     -> internal-error:TypeError@mistral/lang/base.py:__init__
+  M2 lang/v2/workflows.py: task.setdefault('type', ...) instead of task['type'] =  -> internal-error:AttributeError@mistral/lang/v2/workflows.py:*
+  M3 lang/parser.py _parse_def_from_wb: `ident <= temp` instead of `ident < temp`  -> slice:other + slice-model disagreements
+  M4 lang/v2/on_clause.py TASK_WITH_EXPRESSION: remove "minProperties": 1          -> internal-error:IndexError@...on_clause.py:_as_tuple; theorem C14_guards_on_clause broken
+  M5 lang/v2/retry_policy.py: "required": ["delay", "count"] -> ["count"]          -> internal-error:KeyError@...retry_policy.py:__init__; theorem C14_guards_retry broken
+  M6 utils/safe_yaml.py: remove fetch_alias / fetch_anchor                          -> hang-risk:alias-amplification
 
-Findings on the UNCHANGED tree (each has a minimal witness in CORPUS; the check prints one VIOLATION per signature
-until they are fixed or listed in known_findings.json):
+Findings of the first run, all FIXED by 1e28c643 + 31aaf4b7 (their witnesses stay in CORPUS as regression cases with
+the repaired expectation; the Coq side keeps them as C14_slice_regression / C14_guards_regression):
   internal-error:TypeError@mistral/lang/parser.py:_get_spec_version                  workbook text `5`, `true`, `version`
   internal-error:TypeError@mistral/lang/base.py:instantiate_spec                    `type: [direct]` (unhashable polymorphic key)
   internal-error:TypeError@mistral/lang/v2/workflows.py:__init__                    `tasks: {my-task: abc}`
@@ -49,13 +49,13 @@ until they are fixed or listed in known_findings.json):
   internal-error:RecursionError@mistral/utils/safe_yaml.py:load                     3000-deep flow sequence
   internal-error:ValueError@mistral/utils/safe_yaml.py:load                         5000-digit integer
   internal-error:RecursionError@mistral/expressions/jinja_expression.py:validate    2000 nested parentheses in a Jinja expression
-  accepted-unvalidated:wb-returns-None         `version: 2.0` / `version: '2'` in a workbook: get_workbook_spec returns None
-  stored-form:differs:nonstring-key            `input: {ports: {80: http}}` is stored as {"80": ...}
-  task-dropped:version                         a task named `version` is silently not part of the spec
-  slice:other-line-equals-name (F3)            a task named like a later workflow is returned as that workflow's definition
-  slice:member-line-not-plain                  `'wf1':`, `wf1 :`, `wf1: # c`, `wf1: {..}` -> the stored definition is "\n"
+  accepted-unvalidated:wb-returns-None         `version: 2.0` / `version: '2'` in a workbook: get_workbook_spec returned None
+  stored-form:differs:nonstring-key            `input: {ports: {80: http}}` was stored as {"80": ...}
+  task-dropped:version                         a task named `version` was silently not part of the spec
+  slice:other-line-equals-name (F3)            a task named like a later workflow was returned as that workflow's definition
+  slice:member-line-not-plain                  `'wf1':`, `wf1 :`, `wf1: # c`, `wf1: {..}` -> the stored definition was "\n"
   slice:section-name-occurs-earlier            `description: "my workflows: ..."` / an action called sync_workflows
-  slice:raises:ValueError                      `workflows :` / `"workflows":` -> ValueError (HTTP 500) when the accepted workbook is stored
+  slice:raises:ValueError                      `workflows :` / `"workflows":` -> ValueError (HTTP 500) when the accepted workbook was stored
 """
 import collections
 import copy
@@ -77,16 +77,15 @@ from harness.core import coq_str
 GEN = ['Schemas']
 
 MANIFEST = {
-    'level_text': 'Coq theorems (all inputs, induction over lists/lines, no axioms): the workbook slicer returns the '
-                  'member as written for every canonical rendering when no earlier line reads `name:` (and is refuted '
-                  'without that hypothesis); the constructor normalisation is idempotent for workflow lists, action '
-                  'lists and workbooks, so spec_of(to_dict(spec_of d)) = spec_of d; for the schemas GENERATED from the '
-                  'spec classes, schema-valid data satisfies every unchecked key/type assumption of the list, '
-                  'workbook, action, retry, policies, publish, task-defaults, on-clause and task constructors '
-                  '(under explicit hypotheses for the workflow and task constructors, refuted without them), and '
-                  'the polymorphic dispatch / version probe are refuted. Models are tied to the code by differential '
-                  'runs of the real parser entry points (class-by-class schema verdict traces, outcome class, '
-                  'to_dict(), sliced text).',
+    'level_text': 'Coq theorems (all inputs, induction over lists/lines, no axioms): for every canonical rendering the '
+                  'repaired workbook slicer returns the member as written whatever deeper lines precede it (only the shape of '
+                  'a YAML mapping is assumed); the constructor normalisation is idempotent for workflow lists, action lists '
+                  'and workbooks, so spec_of(to_dict(spec_of d)) = spec_of d; for the schemas GENERATED from the spec classes, '
+                  'schema-valid data satisfies every unchecked key/type assumption of every constructor, and building a '
+                  'workflow list / action list / workbook never ends in an internal error - for EVERY JSON-like document '
+                  '(unconditional since the fixes; the old counterexamples are regression theorems). Models are tied to the '
+                  'code by differential runs of the real parser entry points (class-by-class schema verdict traces, outcome '
+                  'class, to_dict(), sliced text, key regex).',
     'level_note': 'PARTIAL: "never an internal error / never hangs for arbitrary TEXT" is decided by the run '
                   '(oracle O1 over mutated and generated documents), not by a theorem: PyYAML, YAQL/Jinja parsers, '
                   'jsonschema and `re` are outside the model (regex verdicts and inline-parameter parsing are '
@@ -1339,7 +1338,54 @@ def suite_slice(ctx, seeds):
         if res != 'true':
             ctx.disagree('slice', {'text': meta['text'], 'section': meta['section'], 'name': meta['name']}, 'model differs', meta['real'])
     ctx.cov['suites']['slice']['kinds'] = dict(kinds)
+    suite_key_of(ctx, [c[0] for c in cases[:400]])
     ctx.sample({'suite': 'slice', 'text': cases[0][0], 'section': cases[0][1], 'name': cases[0][2]})
+
+
+KEY_LINES = ['wf1:', '  wf1:', "  'wf1':", '  "wf1" :  # c', 'wf1 :', 'wf1: {a: 1}', 'wf1:x', 'a b: c', '   : x', ': x', ' :', '"":',
+             '\'a"b\':', '# c:', 'a # b:', 'a #b:', "it's: x", '"a: b": c', 'a::', 'a: :', '---', ' --- ', 'key:\tv', '\tkey:',
+             "'k'x:", '"k"  :z', 'k :', '  k  :  ', "''':", 'a"b":', '- a:', '? a:', 'a:', ':', '', ' ', "'a' 'b':",
+             'workflows:', 'x workflows: y']
+
+
+def suite_key_of(ctx, texts):
+    """Model/Slice.v key_of / is_content vs parser._key_of / _is_content (the regular expression of the repaired slicer)."""
+    P = boot()['parser']
+    rng = ctx.rng
+    lines = list(KEY_LINES)
+    pool = [l for t in texts for l in t.split('\n')]
+    alphabet = 'ab:# \'"-\t{}x1_.'
+    n = ctx.n(600, 6000)
+    while len(lines) < n:
+        if pool and rng.random() < 0.5:
+            l = rng.choice(pool)
+            if rng.random() < 0.4 and l:
+                i = rng.randrange(len(l))
+                l = l[:i] + rng.choice(alphabet) + l[i + rng.randrange(2):]
+        else:
+            l = ''.join(rng.choice(alphabet) for _ in range(rng.randint(0, 9)))
+        if ascii_ok(l) and '\n' not in l:
+            lines.append(l)
+    batch = Batch('c14key')
+    kinds = collections.Counter()
+    for l in lines:
+        real = P._key_of(l + '\n')
+        if real != P._key_of(l):
+            ctx.disagree('key_of', {'line': l}, 'newline-insensitive', 'differs with/without the newline')
+        content = P._is_content(l + '\n')
+        kinds['key' if real is not None else 'no-key'] += 1
+        if real is None:
+            e = 'match key_of %s with None => true | Some _ => false end' % coq_str(l)
+        else:
+            e = 'match key_of %s with Some k => String.eqb k %s | None => false end' % (coq_str(l), coq_str(real))
+        batch.add('andb (%s) (Bool.eqb (is_content %s) %s)' % (e, coq_str(l), 'true' if content else 'false'),
+                  {'line': l, 'real': real, 'content': content})
+    for meta, res in batch.run():
+        ctx.count('key_of', meta['line'], nontrivial=meta['real'] is not None)
+        ctx.cov['disagreements_checked'] += 1
+        if res != 'true':
+            ctx.disagree('key_of', {'line': meta['line']}, 'model differs', {'key': meta['real'], 'content': meta['content']})
+    ctx.cov['suites']['key_of']['kinds'] = dict(kinds)
 
 
 def suite_db_roundtrip(ctx, seeds):
